@@ -3,7 +3,7 @@ SPEC = dict(
     title='Stopping regulation hands the fan back or leaves it at full speed',
     props_file='Props/C03.v', props_mod='Props.C03',
     proof_files=['Proofs/Restore.v', 'Proofs/Daemon.v', 'Drv/Restore.v', 'Drv/Daemon.v'],
-    tie_vo=[],
+    tie_vo=['Proofs/ConstsTie_basic.vo', 'Proofs/ConstsTie_restore.vo'],
     drivers=[dict(name='restore', drv_mod='Drv.Restore', drv_file='Drv/Restore.v', shard=700,
                   timeout={'quick': 600, 'thorough': 1200}),
              dict(name='daemon', drv_mod='Drv.Daemon', drv_file='Drv/Daemon.v', shard=50,
